@@ -159,7 +159,14 @@ func (language *Language) CompilerPasses() compiler.Passes {
 		&compiler.DisjunctionInferMapping{},
 		&compiler.UndiscriminatedDisjunctionToAny{},
 		&compiler.DisjunctionToType{},
+		// members named after operators (`"<"`, `">"`) or names that only differ by case
+		&compiler.EnumMemberIdentifiers{Language: LanguageRef, Identifier: enumMemberIdentifier},
 	}
+}
+
+// enumMemberIdentifier gives the name of the constant declared for an enum member.
+func enumMemberIdentifier(member ast.EnumValue) string {
+	return tools.CleanupNames(formatObjectName(member.Name))
 }
 
 func (language *Language) NullableKinds() languages.NullableConfig {
